@@ -289,28 +289,44 @@ fn run_staged(req: &Req) {
         let Ok(ir) = rssl::typer::type_check(&ast) else { return };
         say("layout-check");
         let _ = rssl::ir::layout_checker::check_layout(&ir);
-        say("assign-bindings");
-        let params = match req.tgt {
-            Tgt::Dx => rssl::AssignBindingsParams::default(),
-            Tgt::Vk | Tgt::VkBa => rssl::AssignBindingsParams {
-                require_slot_type: false,
-                support_buffer_address: req.tgt.buffer_address(),
-                metal_slot_layout: false,
-                static_samplers_have_slots: true,
-            },
-            Tgt::Msl => rssl::AssignBindingsParams {
-                require_slot_type: false,
-                support_buffer_address: false,
-                metal_slot_layout: true,
-                static_samplers_have_slots: false,
-            },
+        // like compile(): every pipeline the mode selects gets its own binding assignment (its DefaultBindGroup
+        // applies there) and export; no-pipeline mode exports the module as a whole
+        let selections: Vec<Option<String>> = match &req.mode {
+            Mode::NoPipeline => vec![None],
+            Mode::All => ir.pipelines.iter().map(|p| Some(p.name.node.clone())).collect(),
+            Mode::Named(n) => ir.pipelines.iter().filter(|p| p.name.node == *n).map(|p| Some(p.name.node.clone())).collect(),
         };
-        let ir = ir.assign_api_bindings(&params);
-        say("export");
-        if req.tgt == Tgt::Msl {
-            let _ = rssl::msl::export_to_msl(&ir);
-        } else {
-            let _ = rssl::hlsl::export_to_hlsl(&ir, req.tgt != Tgt::Dx);
+        for sel in selections {
+            let module = match &sel {
+                None => ir.clone(),
+                Some(name) => match ir.clone().select_pipeline(name) {
+                    Some(m) => m,
+                    None => continue,
+                },
+            };
+            say("assign-bindings");
+            let params = match req.tgt {
+                Tgt::Dx => rssl::AssignBindingsParams::default(),
+                Tgt::Vk | Tgt::VkBa => rssl::AssignBindingsParams {
+                    require_slot_type: false,
+                    support_buffer_address: req.tgt.buffer_address(),
+                    metal_slot_layout: false,
+                    static_samplers_have_slots: true,
+                },
+                Tgt::Msl => rssl::AssignBindingsParams {
+                    require_slot_type: false,
+                    support_buffer_address: false,
+                    metal_slot_layout: true,
+                    static_samplers_have_slots: false,
+                },
+            };
+            let module = module.assign_api_bindings(&params);
+            say("export");
+            if req.tgt == Tgt::Msl {
+                let _ = rssl::msl::export_to_msl(&module);
+            } else {
+                let _ = rssl::hlsl::export_to_hlsl(&module, req.tgt != Tgt::Dx);
+            }
         }
     });
     // the whole call as the property observes it (pipeline selection included)
@@ -1269,6 +1285,31 @@ pub fn run(args: &Args, out: &mut Out) {
         return;
     }
 
+    if args.extra.iter().any(|e| e == "gentest") {
+        // self-test of the generators: none may panic, whatever the seed (development aid)
+        let n = args.n.unwrap_or(20000);
+        let mut bad = 0;
+        for seed in 0..n {
+            for kind in ["pp", "ppmut", "syn", "synmut", "cx", "gram", "gmut", "feat", "toks", "rep", "bytes", "prog", "pmut"] {
+                let r = guard(|| materialise(&format!("{}:{}", kind, seed)).map(|m| m.bytes.len()));
+                if let Err(p) = r {
+                    bad += 1;
+                    if bad < 20 {
+                        println!("generator {} seed {} panics: {}", kind, seed, p);
+                    }
+                }
+            }
+            let r = guard(|| gen_defscan(&mut Rng::new(seed)).len());
+            if let Err(p) = r {
+                bad += 1;
+                if bad < 20 {
+                    println!("generator defscan seed {} panics: {}", seed, p);
+                }
+            }
+        }
+        println!("gentest: {} seeds, {} panics", n, bad);
+        return;
+    }
     if args.extra.iter().any(|e| e == "synprobe") {
         // one request per syntax category and target: the category's template alone (development aid)
         for (cat, alt) in syn_variants() {
